@@ -149,9 +149,43 @@ type ambient struct {
 }
 
 type ambWorld struct {
-	root string
-	a, b ambient
-	seq  int
+	root     string
+	a, b     ambient
+	seq      int
+	files    map[string]string
+	pristine string
+	effects  string // side effects observed by the last spawn
+}
+
+// snapshot lists every file below the cwd and home directories with its content.
+func (w *ambWorld) snapshot() string {
+	var sb strings.Builder
+	for _, d := range []string{"cwdA", "cwdB", "homeA", "homeB"} {
+		filepath.Walk(filepath.Join(w.root, d), func(p string, fi os.FileInfo, err error) error {
+			if err != nil {
+				return nil
+			}
+			rel, _ := filepath.Rel(w.root, p)
+			if fi.IsDir() {
+				sb.WriteString(rel + "/ ")
+				return nil
+			}
+			b, _ := os.ReadFile(p)
+			fmt.Fprintf(&sb, "%s=%q ", rel, b)
+			return nil
+		})
+	}
+	return sb.String()
+}
+
+func (w *ambWorld) restore() {
+	for _, d := range []string{"cwdA", "cwdB", "homeA", "homeB"} {
+		os.RemoveAll(filepath.Join(w.root, d))
+	}
+	for p, s := range w.files {
+		os.MkdirAll(filepath.Dir(p), 0o755)
+		os.WriteFile(p, []byte(s), 0o644)
+	}
 }
 
 var world *ambWorld
@@ -161,7 +195,7 @@ func setupWorld() (*ambWorld, error) {
 	if err != nil {
 		return nil, err
 	}
-	w := &ambWorld{root: root}
+	w := &ambWorld{root: root, files: map[string]string{}}
 	mk := func(name, tz, user, lang, secret, stdin string, extraEnv []string, args []string) (ambient, error) {
 		cwd := filepath.Join(root, "cwd"+name)
 		home := filepath.Join(root, "home"+name)
@@ -183,6 +217,7 @@ func setupWorld() (*ambWorld, error) {
 			if err := os.WriteFile(p, []byte(s), 0o644); err != nil {
 				return ambient{}, err
 			}
+			w.files[p] = s
 		}
 		env := []string{"HOME=" + home, "TZ=" + tz, "USER=" + user, "LOGNAME=" + user, "LANG=" + lang, "LC_ALL=" + lang, "C19_SECRET=" + secret,
 			"JQ_LIBRARY_PATH=" + cwd, "PWD=" + cwd, "TMPDIR=" + root, "GOTRACEBACK=single"}
@@ -195,6 +230,7 @@ func setupWorld() (*ambWorld, error) {
 	if w.b, err = mk("B", "Asia/Tokyo", "bob", "ja_JP.UTF-8", "beta", "{\"stdin\":\"of B\"} [\"x\"] null false 0 1 2 3 4 5\n", []string{"PATH=/bin", "ONLY_IN_B=2", "GOJQ_DEBUG=stderr", "GODEBUG=", "a=lower", "HOME2=x"}, []string{"--arg", "x", "1", "extra"}); err != nil {
 		return nil, err
 	}
+	w.pristine = w.snapshot()
 	return w, nil
 }
 
@@ -245,6 +281,15 @@ func (w *ambWorld) spawn(am ambient, bf batchFile) ([]string, error) {
 	if err != nil {
 		return nil, fmt.Errorf("child %s wrote no result: %v: %s", am.name, err, tail(stderr.String(), 2000))
 	}
+	// nothing may be written either: the child's stdout/stderr stay empty and
+	// its working and home directories stay as they were
+	w.effects = ""
+	if stderr.Len() > 0 {
+		w.effects = fmt.Sprintf("child %s wrote to stdout/stderr: %q", am.name, tail(stderr.String(), 500))
+	} else if now := w.snapshot(); now != w.pristine {
+		w.effects = fmt.Sprintf("child %s changed the files of its working or home directory:\n  before %s\n  after  %s", am.name, w.pristine, now)
+		w.restore()
+	}
 	var bo batchOut
 	if err := json.Unmarshal(ob, &bo); err != nil {
 		return nil, err
@@ -288,9 +333,15 @@ func checkAmbient(c ambCase) string {
 	if err != nil {
 		return err.Error()
 	}
+	if w.effects != "" {
+		return fmt.Sprintf("%q on input %s compiled without options has an effect outside the program: %s", c.Query, univ.Show(c.Input.X), w.effects)
+	}
 	b, err := w.spawn(w.b, bf)
 	if err != nil {
 		return err.Error()
+	}
+	if w.effects != "" {
+		return fmt.Sprintf("%q on input %s compiled without options has an effect outside the program: %s", c.Query, univ.Show(c.Input.X), w.effects)
 	}
 	return ambientMsg(c, a[0], b[0], render(c.Query, univ.Copy(c.Input.X)))
 }
@@ -502,7 +553,7 @@ func runAmbient(t *testing.T) {
 			t.Errorf("ambient: %s", spawnFailure)
 		}
 	}()
-	rec.Rapid(t, "ambient", rec.Scale(240, 12000), func(t *rapid.T) {
+	rec.Rapid(t, "ambient", rec.Scale(240, 6000), func(t *rapid.T) {
 		bf := batchFile{Mode: "plain"}
 		progs := make([]ambProg, batch)
 		for i := 0; i < batch; i++ {
@@ -517,6 +568,7 @@ func runAmbient(t *testing.T) {
 			spawnFailure = err.Error()
 			return
 		}
+		effects := w.effects
 		// child B runs the batch in reverse order: a result that depended on
 		// what ran before in the same process would differ as well
 		rev := batchFile{Mode: bf.Mode, Cases: make([]ambCase, len(bf.Cases))}
@@ -531,6 +583,23 @@ func runAmbient(t *testing.T) {
 		b := make([]string, len(rb))
 		for i := range rb {
 			b[len(rb)-1-i] = rb[i]
+		}
+		if effects == "" {
+			effects = w.effects
+		}
+		if effects != "" && rec.Violations() <= 20 {
+			// find the program: one case per child
+			found := false
+			for _, c := range bf.Cases {
+				if msg := checkAmbient(c); msg != "" {
+					rec.Direct("ambient", c, "%s", msg)
+					found = true
+					break
+				}
+			}
+			if !found {
+				rec.Direct("ambient", bf.Cases[0], "some program of the batch starting with this one: %s", effects)
+			}
 		}
 		for i, c := range bf.Cases {
 			rec.Eval()
